@@ -279,6 +279,10 @@ def evaluate(ctx, cases, impl, model, check_known=True):
 
 
 def run(ctx):
+    ctx.notes["rule"] = ("doubles from boundary streams (powers of 2 and 10, ties, 2^53/2^63 neighbourhoods, subnormals, "
+                         "uniform over exponents) and strings (valid numerals of every length, integer numerals around the widths "
+                         "of int/long/unsigned, mutated numerals, random over the alphabet); distinct = distinct (operation, input) "
+                         "pairs; non-trivial = input is not one of the fixed special values (NaN, infinities, zeros)")
     ctx.assumptions += [
         "glibc sprintf(\"%.Nf\") prints the exact decimal expansion rounded half-even and atof is correctly rounded (modelled in Z arithmetic; validated on every run by the correspondence)",
         "the comparison 'x - floor(x) >= 0.5' in DoubleSupport::round is modelled exactly (argued exact in the source; boundary stream x.5 +- 1ulp)",
